@@ -2988,6 +2988,11 @@ func (vm *Thread) opDefConst() {
 
 // Register slots for local variables and values.
 func (vm *Thread) opPrepLocals(count uintptr) {
+	// the call has only made sure that some headroom is left,
+	// not that it is enough for the locals of this function
+	for float64(vm.spOffset()+int(count)) > 0.7*float64(len(vm.stack)) {
+		vm.growValueStack()
+	}
 	vm.spIncrementBy(count)
 	vm.localCount += int(count)
 }
